@@ -327,6 +327,29 @@ impl Default for ExecOpts<'_> {
     }
 }
 
+/// The canonical hidden-left-recursion scenario, executed for real (no reference, no guard other
+/// than the caller's address-space limit and timeout): returns normally only if the LR driver
+/// terminates on it.
+pub fn run_canonical_loop() -> bool {
+    let (g, toks) = gram::HIDDEN_LEFT_REC;
+    let sc = RScenario {
+        origin: "canonical:hidden-left-recursion".into(),
+        grammar: g.to_string(),
+        tokens: toks.iter().map(|s| s.to_string()).collect(),
+        gaps: vec![],
+        costs: BTreeMap::new(),
+        hash_seed: 1,
+        clock: ClockPolicy { tick_ns: 50_000, jumps: vec![] },
+        policy_class: "tick".into(),
+        base_reads: 0,
+        zero_width: vec![],
+    };
+    let Ok(prep) = prepare(&sc) else { return true };
+    let lexer = StubLexer::new(&prep.toks, &sc.gaps, &sc.zero_width);
+    let (r, _) = real_parse_map(&prep.built, &lexer, &prep.costs, sc.hash_seed, &sc.clock);
+    matches!(r, SimOutcome::Ok(_))
+}
+
 /// Execute one scenario: reference first, then the real parser twice (parse_map, parse_actions)
 /// as simulated processes, then every oracle.
 pub fn execute(sc: &RScenario, opts: &ExecOpts) -> RunReport {
@@ -347,6 +370,11 @@ pub fn execute(sc: &RScenario, opts: &ExecOpts) -> RunReport {
     let lexer = StubLexer::new(&prep.toks, &sc.gaps, &sc.zero_width);
     let n = prep.toks.len();
     let gdig = fnv(sc.grammar.as_bytes());
+
+    // ---- tables with a statically detectable endless reduction chain are never run in-process --
+    if let Some((q, t)) = gram::reduction_loop_witness(b) {
+        return loop_scenario(rep, &prep, &format!("in state {q} under lookahead token {t} the table demands an endless chain of reductions"));
+    }
 
     // ---- pre-vet: plain parse to the first error, reference search there --------------------
     let (k0, st0, acc0) = ctx.parse_from(&mut ss, start_stack, 0, usize::MAX);
